@@ -60,9 +60,10 @@ def _visible(eff):
     return out
 
 
-def _judge(want, have):
+def _judge(want, have, closure=()):
     """two outcomes of the same case differ: is that a positively identified change of behaviour?
-    -> ('bad', why) | ('undecided', why)"""
+    -> ('bad', why) | ('undecided', why).  `closure`: variables of the enclosing function (state the function shares with its
+    siblings: how it is represented -- a one-element list, a rebound nonlocal -- is not visible in one function alone)."""
     import re as _re
     if 'loop ' in want or 'loop ' in have:
         def strip_loops(t):
@@ -73,8 +74,13 @@ def _judge(want, have):
                     return out + t[i:]
                 out += t[i:j] + 'LOOP'
                 k = t.find('{', j)
-                if k < 0:
-                    return out
+                e = t.find(' ; ', j)
+                if k < 0 or (0 <= e < k):
+                    # a loop with an empty body is printed without braces: it ends at the next step
+                    if e < 0:
+                        return out
+                    i = e
+                    continue
                 depth = 0
                 while k < len(t):
                     if t[k] == '{':
@@ -106,6 +112,9 @@ def _judge(want, have):
         extra = [x for x in hsk if x not in wsk]
         if any(k == 'loop' for k, _ in missing + extra):
             return 'undecided', 'a nested loop was added or removed (its body is compared as text only)'
+        shared = set(closure) | {'_closure_'}
+        if missing + extra and all(k == 'store' and _re.split(r'[.\[(]', h)[0] in shared for k, h in missing + extra):
+            return 'undecided', 'the state shared with the enclosing function is stored differently (%s instead of %s): not decidable from this function alone' % (extra or '-', missing or '-')
         if any(k in ('store', 'call') for k, _ in missing + extra) or (missing + extra and all(k == 'exit' for k, _ in missing + extra)):
             return 'bad', 'the externally visible steps differ (not in the reviewed behaviour: %s; missing: %s)' % (extra or '-', missing or '-')
         return 'undecided', 'different steps on local objects'
@@ -114,6 +123,8 @@ def _judge(want, have):
         if t1 != t2:
             if _re.search(r'obj\d+', t1 + t2) or 'loop ' in t1:
                 return 'undecided', 'same visible steps; an operand built from local objects is spelled differently (%s)' % t2[:120]
+            if _re.search(r'_h\d+_', t1 + t2) and 'LOOP' in want + have:
+                return 'undecided', 'same visible steps; an operand is a value computed by a loop (compared as text only): %s' % t2[:120]
             return 'bad', 'same steps, different operand: `%s` instead of `%s`' % (t2[:160], t1[:160])
     if wt != ht:
         if _re.search(r'obj\d+', ''.join(wt + ht)):
@@ -152,6 +163,12 @@ def check_table(p, res, rname, fq, message, detectors=()):
         def fz(rows):
             return [(l, [(c, o.replace('ret None', 'ret False') if (o.endswith('ret None') or 'ret None ||' in o) else o) for c, o in rs]) for l, rs in rows]
         have, want = fz(have), fz(want)
+    closure = set()
+    g = f.parent
+    while g is not None:
+        closure |= set(g.locals) | set(g.params)
+        g = g.parent
+    closure -= set(f.locals) | set(f.params)
     for d in detectors:
         hit = d(p, f)
         if hit is not None:
@@ -163,8 +180,11 @@ def check_table(p, res, rname, fq, message, detectors=()):
         return 'undecided'
     verdict = 'ok'
     n = 0
-    for (label, hrows), (_, wrows) in zip(have, want):
-        st, det = dtable.check_rows(hrows, wrows)
+    results = [(label, dtable.check_rows(hrows, wrows)) for (label, hrows), (_, wrows) in zip(have, want)]
+    # the segments of one function are coupled through the loop-carried values (_acc_/_fin_): when one of them can no longer be
+    # compared (restructured loop), a difference in another one is not a positively identified change
+    coupled = any(st == 'unknown' for _, (st, _) in results) and len(results) > 1
+    for label, (st, det) in results:
         if st == 'ok':
             n += det
         elif st == 'unknown':
@@ -173,7 +193,9 @@ def check_table(p, res, rname, fq, message, detectors=()):
         else:
             for wc, wo, hc, ho in det[:2]:
                 when = ' and '.join(('%s' if v else 'not (%s)') % k for k, v in sorted(hc.items())) or 'always'
-                kind, why = _judge(wo, ho)
+                kind, why = _judge(wo, ho, closure)
+                if kind == 'bad' and coupled and ('_fin_' in wo + ho or '_acc_' in wo + ho or any('_fin_' in k or '_acc_' in k for k in list(wc) + list(hc))):
+                    kind, why = 'undecided', 'another segment of the loop can no longer be compared, and this case depends on the loop-carried values'
                 if kind == 'bad':
                     res.bad(F(rname, f, f.node, '%s [%s] when %s: %s' % (f.name, label, when, ho),
                               message + '; ' + why + '; reviewed behaviour for this case: ' + wo))
